@@ -12,12 +12,13 @@ from .vals import (OutOfReach, Arr, ExprArr, SpecArr, FunVal, Obj, INT, REAL, BO
                    truth, b_not, b_and, b_or, ite)
 from .interp import Module, load_module, State, Obligation, Contract, Ctx
 from .execu import Exec, Frame, parse_annotation, loop_fingerprint, assigned_names, MAX_UNROLL
+from .bufs import Buf, BufRef, BufView, BufCopy, FIELD
 
 BUILTINS = {'arange', 'atleast_1d', 'len', 'range', 'enumerate', 'min', 'max', 'abs', 'int', 'float', 'bool', 'empty', 'zeros', 'ones',
             'empty_like', 'zeros_like', 'sum', 'tuple', 'list', 'isinstance', 'print', 'zip', 'floor', 'sqrt',
             'exp', 'tanh', 'cosh', 'cos', 'sin', 'RuntimeError', 'ValueError', 'AssertionError', 'NotImplementedError',
             'str', 'reversed', 'sorted', 'all', 'any', 'prod', 'pi', 'mod', 'fabs', 'log', 'dict', 'set'}
-SPEC_BUILTINS = {'uknots', 'forall', 'exists', 'sum_', 'implies', 'and_', 'iff', 'old', 'ite_', 'shape', 'let', 'select', 'real', 'fdiv', 'fmod', 'trunc'}
+SPEC_BUILTINS = {'holds', 'valid', 'field_of', 'layout_of', 'same_content', 'distinct_bufs', 'same_buf', 'bufview', 'name_id', 'split', 'uknots', 'forall', 'exists', 'sum_', 'implies', 'and_', 'iff', 'old', 'ite_', 'shape', 'let', 'select', 'real', 'fdiv', 'fmod', 'trunc'}
 
 import vf.execu as _execu
 _execu.BUILTINS = BUILTINS
@@ -40,6 +41,8 @@ class Engine(Exec):
             return self.spec_call(f.name, args, st, fr)
         if f.kind == 'pymethod':
             return self.call_pymethod(f, args, kwargs, st, fr, node)
+        if f.kind == 'bufmethod':
+            return self.buf_method(st, fr, f, args)
         if f.kind in ('repo', 'method', 'param', 'class'):
             return self.call_function(f, args, kwargs, st, fr, node)
         raise OutOfReach('call kind ' + f.kind)
@@ -61,6 +64,17 @@ class Engine(Exec):
 
     def call_builtin(self, name, args, kwargs, st, fr, node):
         name = name.split('.')[-1] if name.split('.')[0] in ('np', 'numpy', 'math') else name
+        r = self.buf_builtin(st, fr, name, args, kwargs, node)
+        if r is not NotImplemented:
+            return r
+        if name in ('holds', 'valid', 'field_of', 'layout_of', 'same_content', 'distinct_bufs', 'same_buf'):
+            r = self.buf_spec(st, fr, name, [self.intern_name(a) if isinstance(a, str) else a for a in args])
+            if r is not NotImplemented:
+                return r
+        if name == 'bufview':
+            return BufView(self.as_ref(args[0]))
+        if name == 'name_id':
+            return self.intern_name(args[0])
         if name == 'len':
             a = args[0]
             if self.is_arr(a):
@@ -190,6 +204,15 @@ class Engine(Exec):
         if name in ('dict',):
             return {}
         raise OutOfReach('builtin %s' % name)
+
+    def intern_name(self, s):
+        """Layout names (strings) as integer ids in ghost contents."""
+        if not isinstance(s, str):
+            return s
+        tab = self.ctx.consts.setdefault('__names__', {})
+        if s not in tab:
+            tab[s] = len(tab) + 1
+        return tab[s]
 
     def math1(self, name, a, st):
         if not is_sym(a) and name == 'sqrt' and a >= 0:
@@ -383,6 +406,9 @@ class Engine(Exec):
                 mods = arr_params
         for p in mods:
             a = env.get(p)
+            if isinstance(a, (Buf, BufRef, BufView)):
+                self.havoc_buf(st, a)
+                continue
             if isinstance(a, Arr):
                 self.havoc_arr(st, a)
             elif a is not None and not isinstance(a, (SpecArr, ExprArr)):
@@ -392,7 +418,17 @@ class Engine(Exec):
         post_st = st.fork()
         post_st.env = dict(env)
         result = None
-        if c.returns is not None:
+        if c.returns is not None and c.returns.startswith('layout:'):
+            # a Layout object known only through its name (size is an uninterpreted function of the name)
+            nm = self.ev_clause_val(c.returns[7:], callee_st, cfr)
+            nid = self.intern_name(nm)
+            o = Obj(('pygyro/model/layout.py', 'Layout'))
+            lsize = V.uf('lsize', INT, INT)
+            st.objs[o.oid] = {'_name': nm, '_size': lsize(ZI(nid)), '_shape': ('shape-of', nm)}
+            st.pc.append(lsize(ZI(nid)) >= 0)
+            result = o
+            post_st.env['result'] = result
+        elif c.returns is not None:
             if c.pure:
                 tmp = cfr.entry.fork()
                 result = self.pure_app(c, target[0] if target else None, qual, None, params, env, tmp)
